@@ -145,6 +145,20 @@ static void use_everything(const char *who, int ncb_before, int lfht)
 static struct cds_lfht *pre_ht;
 static struct cds_lfht_node pre_nodes[6];
 
+/* the inherited AUTO_RESIZE table is emptied and destroyed: the teardown is queued to the (re-created) worker */
+static void pre_ht_teardown(const char *who)
+{
+	int i;
+
+	RD_LOCK();
+	for (i = 0; i < 5; i++)
+		VRT_CHECK(cds_lfht_del(pre_ht, &pre_nodes[i]) == 0, "%s: del from the inherited table failed", who);
+	RD_UNLOCK();
+	VRT_CHECK(cds_lfht_destroy(pre_ht, NULL) == 0, "%s: destroy of the emptied inherited table failed", who);
+	while (!vrt_is_freed(pre_ht))
+		BLOCKING(vrt_yield());
+}
+
 static void run_fork(void)
 {
 	int helpers = (int)vrt_param("helpers", 0), nreaders = (int)vrt_param("readers", 0), hold = (int)vrt_param("hold", 0);
@@ -209,6 +223,7 @@ static void run_fork(void)
 			cds_lfht_add(pre_ht, 4, &pre_nodes[4]);
 			RD_UNLOCK();
 			BLOCKING(cds_lfht_resize(pre_ht, 2));
+			pre_ht_teardown("child");
 		}
 	} else {
 #ifdef FLAVOR_BP
@@ -223,6 +238,7 @@ static void run_fork(void)
 			cds_lfht_add(pre_ht, 4, &pre_nodes[4]);
 			RD_UNLOCK();
 			BLOCKING(cds_lfht_resize(pre_ht, 2));
+			pre_ht_teardown("parent");
 		}
 #ifdef FLAVOR_BP
 		for (i = 0; i < nreaders; i++)
